@@ -790,9 +790,9 @@ class Element(object):
             except Exception:
                 self._parent = old_parent  # refused: still a child of the previous parent
                 raise
-            if old_parent is not None and old_parent is not parent and \
-                    any(c is self for c in old_parent.children.list):
-                old_parent.children.remove(self)  # an element has one parent: it moves
+        if old_parent is not None and old_parent is not parent and \
+                any(c is self for c in old_parent.children.list):
+            old_parent.children.remove(self)  # an element has one parent: it moves (or is detached)
 
     parent = property(_get_parent, _set_parent,
                       doc="The parent :class:`Element <hl7apy.core.Element>` of this one")
